@@ -45,6 +45,7 @@ PROPS = {
                      ("cmds", 0.3, {"policy": {"datastore": True}}), ("hold", 0.2, {"policy": {"datastore": True}})],
                 mc=["MC_base"]),
     "C33": dict(mix=[("xtrig", 1.0, {})], mc=[]),
+    "C32": dict(mix=[("expire", 1.0, {})], mc=[]),
     "C19": dict(mix=[("restart", 1.0, {})], mc=["MC_restart"]),
     "C20": dict(mix=[("crash", 1.0, {})], mc=["MC_crash"]),
     "C31": dict(mix=[("plain", 0.6, {"features": {"sequential": "always"}}),
